@@ -17,6 +17,7 @@
 -/
 import ClarabelProofs.Props.C01NS
 import ClarabelProofs.Lemmas.SolverNSTotal
+import ClarabelProofs.Lemmas.SolverNSTotalRealRun
 
 namespace Clarabel.C01
 open Clarabel Clarabel.InfoUser Clarabel.Dense
@@ -145,5 +146,70 @@ example : ∃ S r, Solver.new Solver.FullExample.P #[1] Solver.FullExample.A #[1
   exact ⟨S, r, a, b⟩
 
 end totalExamples
+
+/-! ### TOTAL over ℝ: no numerical-domain site left (`FuelOK`) -/
+
+/-- **[R] `C01.ns_full_solve_total_real`** — `ns_full_solve_total` WITHOUT the alternative: over ℝ, when the
+model's fuel for the `loop` of `backtrack_search` fits the line-search settings (`SolverNS.FuelOK st.ls`:
+`0 < btFuel`, `0 ≤ linesearch_backtrack_step`, `linesearch_backtrack_step ^ btFuel <
+min_terminate_step_length`; the defaults need 42 rounds), no panic site is left
+(`C04.ns_solve_total_real`): `new` returns `S`, `S.solve st` RETURNS `.ok r`, and a `Solved` /
+`AlmostSolved` answer certifies the USER's problem (the conclusion of `ns_full_solve_total` verbatim).
+Hypotheses: those of `ns_full_solve_total` plus `FuelOK st.ls`; `ValidCones (layoutN S.st)` of
+`C04.ns_solve_total_real` is derived from the user-level `ValidCones cones`
+(`SolverNS.validCones_layout_of_new`). -/
+theorem ns_full_solve_total_real {P : Csc ℝ} {q : Array ℝ} {A : Csc ℝ} {b : Array ℝ}
+    {cones : List (ConeT ℝ)} {st : SolverNS.Settings ℝ} {perm : Array Nat}
+    (hin : SolverNS.InputOKN P q A b cones) (hvc : Equil.ValidCones cones)
+    (hm : ∀ c ∈ cones, SolverNS.ConeT.modelledN c) (hn : 0 < P.n)
+    (hperm : SolverNS.PermForN P q A b cones st perm) (hpiv : Solver.PivotOK st.lin)
+    (hpre : st.presolveEnable = false ∨ ∃ keep,
+      Presolve.keepFlags (Presolve.threshold st.infbound) (Cones.newCollapsed cones) b.toList = .ok keep
+        ∧ keep.count true = b.size)
+    (hlo : 0 < st.equil.minScaling) (hhi : 0 < st.equil.maxScaling)
+    (hf0 : 0 < st.maxStepFraction) (hf1 : st.maxStepFraction < 1) (hmv : 0 < st.maxValue)
+    (hb0 : 0 ≤ st.linesearchBacktrackStep) (hb1 : st.linesearchBacktrackStep ≤ 1)
+    (hF : SolverNS.FuelOK st.ls) :
+    ∃ S r, SolverNS.Solver.new P q A b cones st perm = .ok S ∧ S.solve st = .ok r ∧ (
+      ∀ tol : Info.Tols ℝ,
+        (r.S.solution.status = .solved ∧ tol = st.info.full)
+          ∨ (r.S.solution.status = .almostSolved ∧ tol = st.info.reduced) →
+      ∃ Pn, ProblemData.triuStep P = .ok Pn ∧
+        let bc := ProblemData.capB b st.infbound
+        let p := problemOf Pn q A bc A.n A.m
+        let x := vecFn r.S.solution.x A.n
+        let sv := vecFn r.S.solution.s A.m
+        let z := vecFn r.S.solution.z A.m
+        let pobj := dot x (mulV p.P x) / 2 + dot p.q x
+        let dobj := -dot p.b z - dot x (mulV p.P x) / 2
+        nrm (fun k => mulV p.A x k + sv k - p.b k) / max 1 (Vec.normInf bc + nrm x + nrm sv) < tol.feas
+        ∧ nrm (fun j => mulV p.P x j + mulVT p.A z j + p.q j) / max 1 (Vec.normInf q + nrm x + nrm z)
+            < tol.feas
+        ∧ (|pobj - dobj| < tol.gap_abs ∨ |pobj - dobj| / max 1 (min |pobj| |dobj|) < tol.gap_rel)
+        ∧ Equil.CompositeMem Equil.ConeMem (Cones.newCollapsed cones) r.S.solution.s.toList
+        ∧ Equil.CompositeMem Equil.ConeMemDual (Cones.newCollapsed cones) r.S.solution.z.toList
+        ∧ r.S.solution.x.size = A.n ∧ r.S.solution.s.size = A.m ∧ r.S.solution.z.size = A.m) := by
+  obtain ⟨S, hnew, hs⟩ := ns_full_solve_total hin hvc hm hn hperm hpiv hpre hlo hhi hf0 hf1 hmv hb0 hb1
+  obtain ⟨S', r, hnew', hr, _⟩ :=
+    SolverNS.run_total_realN hin hvc hm hn hperm hpiv hpre hf0 hf1 hmv hb0 hb1 hF
+  exact ⟨S', r, hnew', hr, SolverNS.okOr_of_run hnew hnew' hr hs⟩
+
+/-! ### non-vacuity of `ns_full_solve_total_real`: on the instance with an exponential and a power cone (`cones =
+[nonneg 1, exp, pow ½]`, default settings, fuel 1000 ≥ 42) every hypothesis holds, `FuelOK` included -/
+section totalRealExamples
+open Clarabel.SolverNS
+
+example : FuelOK FullExample.stR.ls := FullExample.stR_fuelOK
+example : FuelOK (⟨0.8, 1e-4, 200000⟩ : LineSearch ℝ) := fuelOK_default (by omega)
+/-- the theorem applies to that instance: `new` AND `solve()` return -/
+example : ∃ S r, Solver.new FullExample.P FullExample.q FullExample.A FullExample.b FullExample.cones
+      FullExample.stR #[0, 1, 2, 3, 4, 5, 6, 7] = .ok S ∧ S.solve FullExample.stR = .ok r := by
+  obtain ⟨h0, h1, h2, h3, h4, h5, h6, h7⟩ := FullExample.stR_ok
+  obtain ⟨S, r, a, b, _⟩ := ns_full_solve_total_real FullExample.inputOKN FullExample.validCones
+    FullExample.modelledN (by decide) (FullExample.permForN _ rfl) FullExample.stR_pivotOK (Or.inl h0)
+    h1 h2 h3 h4 h5 h6 h7 FullExample.stR_fuelOK
+  exact ⟨S, r, a, b⟩
+
+end totalRealExamples
 
 end Clarabel.C01
